@@ -37,9 +37,6 @@ fn ref_ends_field(b: u8) -> bool {
 #[kani::stub(alloc::fmt::format, empty_format)]
 fn c23_hex_rdata_len2() {
     let h: [u8; 4] = kani::any();
-    // "\r\n" also ends a field; keep '\r' out so that the reference need not
-    // look ahead (the fifth octet is '\n': h[3] == '\r' would end the field)
-    kani::assume(h[3] != b'\r');
     let line: [u8; 5] = [h[0], h[1], h[2], h[3], b'\n'];
     // the small-buffer parser of the zone_file family (`From<[u8; N]>`)
     let mut p = Parser::<_>::from(line);
@@ -54,17 +51,20 @@ fn c23_hex_rdata_len2() {
         (Ok(_), _) => assert!(false, "[C24] a non-hexadecimal digit is accepted in \\# RDATA"),
         (Err(_), [Some(_), Some(_), Some(_), Some(_)]) => assert!(false, "[C23] valid hex RDATA rejected"),
         (Err(Error::Syntax(det)), _) => {
-            // the first offending octet decides the kind of error
-            let first_bad = if n[0].is_none() {
-                h[0]
+            // the first offending octet decides the kind of error: the field
+            // ends there (separator, parenthesis, comment, LF, or CR LF) or
+            // the octet is not a hexadecimal digit
+            let k = if n[0].is_none() {
+                0
             } else if n[1].is_none() {
-                h[1]
+                1
             } else if n[2].is_none() {
-                h[2]
+                2
             } else {
-                h[3]
+                3
             };
-            if ref_ends_field(first_bad) {
+            let crlf = line[k] == b'\r' && line[k + 1] == b'\n';
+            if ref_ends_field(line[k]) || crlf {
                 assert!(det.kind == ErrorKind::UnexpectedEndOfHexRdata, "[C23] wrong error for short hex RDATA");
             } else {
                 assert!(det.kind == ErrorKind::InvalidHexDigit, "[C23] wrong error for a bad hex digit");
@@ -131,6 +131,33 @@ fn c24_type_token4() {
     core::mem::forget(p);
 }
 
+// @harness props=C24 tier=quick mem=8 t=3600 stubs="S6"
+//   fn="Parser::parse_type,Reader::read_field,<Type as FromStr>::from_str"
+//   bound="type field NULL in every mix of upper and lower case (16 spellings) followed by a newline: rejected as NullNotAllowed; unwind 12 (NULL is the 10th mnemonic)"
+//   sym="4 case bits"
+#[kani::proof]
+#[kani::unwind(12)]
+#[kani::stub(alloc::fmt::format, empty_format)]
+fn c24_type_null() {
+    let c: [bool; 4] = kani::any();
+    let line: [u8; 5] = [
+        if c[0] { b'N' } else { b'n' },
+        if c[1] { b'U' } else { b'u' },
+        if c[2] { b'L' } else { b'l' },
+        if c[3] { b'L' } else { b'l' },
+        b'\n',
+    ];
+    let mut p = Parser::<_>::from(line);
+    let r = p.parse_type();
+    assert!(
+        matches!(&r, Err(Error::Syntax(det)) if det.kind == ErrorKind::NullNotAllowed),
+        "[C24] type NULL must be rejected in a zone file"
+    );
+    kani::cover!(r.is_err() && c[0] && !c[1], "mixed case");
+    core::mem::forget(r);
+    core::mem::forget(p);
+}
+
 // @harness props=C24,C23 tier=thorough mem=8 t=3600 stubs="S6"
 //   fn="Parser::parse_type,Reader::read_field,<Type as FromStr>::from_str"
 //   bound="RFC 3597 type field TYPE + 3 symbolic decimal digits + newline: accepted with the numeric value unless that value is 10, 41 or 250 (NULL, OPT, TSIG under their generic names); unwind 22"
@@ -156,4 +183,188 @@ fn c24_type_generic3() {
     kani::cover!(r.is_err() && v == 41, "TYPE041 rejected");
     core::mem::forget(r);
     core::mem::forget(p);
+}
+
+// --------------------------------------------------------------------------
+// C24 (i): totality on every input of N octets
+// --------------------------------------------------------------------------
+
+use super::super::{Line, LineContent, ParsedRr};
+
+/// What the property says about one yielded record.
+fn check_valid(rr: &ParsedRr) {
+    // absolute owner: the wire form ends with the root label and the label
+    // table agrees
+    let w = rr.owner.wire_repr();
+    assert!(w.len() >= 1 && w[w.len() - 1] == 0, "[C24] yielded owner is not an absolute name");
+    let t = u16::from(rr.rr_type);
+    assert!(t != 10 && t != 41 && t != 250, "[C24] yielded record has type NULL, OPT or TSIG");
+    assert!(
+        rr.rdata.validate(rr.class, rr.rr_type).is_ok(),
+        "[C24] yielded RDATA does not validate for its class and type"
+    );
+}
+
+/// Drives the iterator for at most `max_items` items: every record yielded is
+/// valid, nothing follows the first error.  Returns (records, includes,
+/// errors) seen.
+fn drive<S: Read>(p: &mut Parser<S>, max_items: usize) -> (usize, usize, usize) {
+    let mut recs = 0;
+    let mut incs = 0;
+    let mut errs = 0;
+    let mut k = 0;
+    while k < max_items {
+        match p.next() {
+            None => break,
+            Some(Ok(line)) => {
+                assert!(errs == 0, "[C24] the parser yields a line after its first error");
+                assert!(line.number >= 1, "[C24] line numbers start at 1");
+                match &line.content {
+                    LineContent::Record(rr) => {
+                        check_valid(rr);
+                        recs += 1;
+                    }
+                    LineContent::Include(_) => incs += 1,
+                }
+                core::mem::forget(line);
+            }
+            Some(Err(e)) => {
+                assert!(errs == 0, "[C24] the parser yields a second error");
+                errs += 1;
+                core::mem::forget(e);
+            }
+        }
+        k += 1;
+    }
+    if errs > 0 {
+        let after = p.next();
+        assert!(after.is_none(), "[C24] the parser yields something after its first error");
+    }
+    (recs, incs, errs)
+}
+
+
+/// Stand-in for `Parser::parse_rdata` in the totality harnesses.  A record
+/// needs an owner, a class (no previous record to inherit one from), a type
+/// and separators - at least 6 octets - before its RDATA is looked at, so for
+/// the inputs of at most 3 octets checked here parse_rdata is never reached;
+/// the stub ASSERTS that (the solver checks it), which spares CBMC the
+/// symbolic execution of every RDATA parser (Ipv4Addr / Ipv6Addr::from_str,
+/// SOA, WKS, TXT, ...): with them the 1-octet harness ran out of memory at
+/// 10.5 GB (measured).
+fn rdata_unreachable<S: Read>(_p: &mut Parser<S>, _class: Class, _rr_type: Type) -> Result<Box<Rdata>> {
+    assert!(false, "[C24] harness: parse_rdata reached by an input of at most 3 octets");
+    Ok(Rdata::empty().to_owned())
+}
+
+fn totality<const N: usize>() {
+    let data: [u8; N] = kani::any();
+    let mut p = Parser::<_>::from(data);
+    let (recs, _incs, errs) = drive(&mut p, 3);
+    assert!(recs == 0, "[C24] a record out of at most 3 octets");
+    kani::cover!(errs == 1, "some input is rejected");
+    kani::cover!(errs == 0, "some input is accepted as empty");
+    core::mem::forget(p);
+}
+
+// Whole-parser totality measurements (all with unwind 4, N = 1):
+//  * real Parser::new (16 KiB buffer): CBMC out of memory at 6.0 GB RSS after
+//    25 min of symbolic execution;
+//  * 64-octet buffer, every RDATA parser reachable: out of memory at 10.5 GB
+//    after 833 loop unwindings;
+//  * 64-octet buffer, parse_rdata replaced by an asserted-unreachable stub:
+//    the harnesses below.
+
+// @harness props=C24 tier=quick mem=6 t=3600 stubs="S6,rdata_unreachable"
+//   fn="Parser::next,Parser::parse_line,Parser::parse_record_or_empty,Parser::parse_directive,Parser::parse_name,Parser::parse_ttl_and_class,Parser::parse_type,Reader::*"
+//   bound="every input of exactly 1 octet (all 256) through the parser with a 64-octet initial buffer, iterated until None or 3 items; parse_rdata asserted unreachable; unwind 4"
+//   sym="data:[u8;1]"
+#[kani::proof]
+#[kani::unwind(4)]
+#[kani::stub(alloc::fmt::format, empty_format)]
+#[kani::stub(Parser::parse_rdata, rdata_unreachable)]
+fn c24_total_len1() {
+    totality::<1>();
+}
+
+// @harness props=C24 tier=thorough mem=8 t=7200 stubs="S6,rdata_unreachable"
+//   fn="Parser::next,Parser::parse_line,Parser::parse_record_or_empty,Parser::parse_directive,Parser::parse_name,Parser::parse_ttl_and_class,Parser::parse_type,Reader::*"
+//   bound="every input of exactly 2 octets through the parser with a 64-octet initial buffer, iterated until None or 3 items; parse_rdata asserted unreachable; unwind 5"
+//   sym="data:[u8;2]"
+#[kani::proof]
+#[kani::unwind(5)]
+#[kani::stub(alloc::fmt::format, empty_format)]
+#[kani::stub(Parser::parse_rdata, rdata_unreachable)]
+fn c24_total_len2() {
+    totality::<2>();
+}
+
+// --------------------------------------------------------------------------
+// C23: TTL / class fields in either order, omitted, $TTL precedence
+// --------------------------------------------------------------------------
+
+fn ttl_class_outcome<S: Read>(p: &mut Parser<S>) -> Option<(u32, u16, usize)> {
+    match p.parse_ttl_and_class() {
+        Ok((ttl, class)) => Some((u32::from(ttl), u16::from(class), p.reader.position().column)),
+        Err(e) => {
+            core::mem::forget(e);
+            None
+        }
+    }
+}
+
+// @harness props=C23 tier=quick mem=6 t=2400 stubs="S6"
+//   fn="Parser::parse_ttl_and_class,Parser::parse_ttl,Parser::parse_class,Reader::read_field,Reader::skip_to_next_field,<Class as FromStr>::from_str"
+//   bound="fields 'D IN A' and 'IN D A' (D one symbolic decimal digit, LF at the end), empty context: TTL D, class IN, exactly the two fields consumed (column 5); unwind 8"
+//   sym="one digit"
+#[kani::proof]
+#[kani::unwind(8)]
+#[kani::stub(alloc::fmt::format, empty_format)]
+fn c23_ttl_class_both_orders() {
+    let d: u8 = kani::any();
+    kani::assume(d >= b'0' && d <= b'9');
+    let mut p1 = Parser::<_>::from([d, b' ', b'I', b'N', b' ', b'A', b'\n']);
+    let r1 = ttl_class_outcome(&mut p1);
+    assert!(r1 == Some(((d - b'0') as u32, 1, 5)), "[C23] 'TTL CLASS TYPE' must give that TTL and class and consume exactly the two fields");
+    let mut p2 = Parser::<_>::from([b'I', b'N', b'\t', d, b' ', b'A', b'\n']);
+    let r2 = ttl_class_outcome(&mut p2);
+    assert!(r2 == Some(((d - b'0') as u32, 1, 5)), "[C23] 'CLASS TTL TYPE' must give that TTL and class and consume exactly the two fields");
+    kani::cover!(r1 == Some((9, 1, 5)), "TTL 9");
+    core::mem::forget((p1, p2));
+}
+
+// @harness props=C23 tier=quick mem=6 t=2400 stubs="S6"
+//   fn="Parser::parse_ttl_and_class,Parser::default_or_previous_ttl"
+//   bound="omitted fields: 'CH A' with $TTL default T1 and previous TTL T2 (both symbolic u32) -> TTL T1, class CH; 'A' with no $TTL, previous TTL T2 and previous class HS -> T2, HS; 'A' with an empty context -> error; unwind 8"
+//   sym="two u32 TTLs"
+#[kani::proof]
+#[kani::unwind(8)]
+#[kani::stub(alloc::fmt::format, empty_format)]
+fn c23_ttl_class_omitted() {
+    let t1: u32 = kani::any();
+    let t2: u32 = kani::any();
+    let mut p1 = Parser::<_>::from([b'C', b'H', b' ', b'A', b'\n']);
+    p1.context.default_ttl = Some(Ttl::from(t1));
+    p1.context.previous_ttl = Some(Ttl::from(t2));
+    p1.context.previous_class = Some(Class::IN);
+    let r1 = ttl_class_outcome(&mut p1);
+    // Ttl::from clamps values above 2^31 - 1 to 0 (RFC 2181 section 8); what
+    // matters here is WHICH of the two TTLs is used
+    assert!(
+        r1 == Some((u32::from(Ttl::from(t1)), 3, 4)),
+        "[C23] an omitted TTL takes the $TTL default, not the previous record's TTL; an explicit class wins"
+    );
+    let mut p2 = Parser::<_>::from([b'A', b'\n']);
+    p2.context.previous_ttl = Some(Ttl::from(t2));
+    p2.context.previous_class = Some(Class::HS);
+    let r2 = ttl_class_outcome(&mut p2);
+    assert!(
+        r2 == Some((u32::from(Ttl::from(t2)), 4, 1)),
+        "[C23] omitted TTL and class are the previous record's"
+    );
+    let mut p3 = Parser::<_>::from([b'A', b'\n']);
+    let r3 = ttl_class_outcome(&mut p3);
+    assert!(r3.is_none(), "[C23] a first record without TTL and class cannot be accepted");
+    kani::cover!(t1 != t2 && r1.is_some() && r2.is_some(), "two different TTLs");
+    core::mem::forget((p1, p2, p3));
 }
